@@ -54,7 +54,7 @@ type imageChecker struct {
 func (ic *imageChecker) check(img []byte, allowed []uint64, what string) bool {
 	ic.n++
 	sub := &core.Result{}
-	w := NewWorld(ic.cfg, Monitors{Property: ic.prop, Content: true, LockIdle: true, Partition: true}, ic.c.R, sub)
+	w := NewWorld(ic.cfg, Monitors{Property: ic.prop, Content: true, LockIdle: true, Partition: true, Coverage: !ic.resized}, ic.c.R, sub)
 	capacity := ic.cfg.DiskCap
 	w.Disk = simdisk.FromImage("crash-image", img, capacity)
 	w.Disk.SetRecording(false)
@@ -210,6 +210,32 @@ func runCrashCase(c *core.Case) *core.Result {
 		prog = np
 		res.Add("histories_with_resize_on_open", 1)
 	}
+	if c.Idx%12 == 7 {
+		// shrink on open with a free region at the end of the file beyond the new
+		// limit: the second (optional) maintenance transaction releases it
+		// (a pre-sized meta area keeps the freed pages adjacent to the end marker)
+		cfg = Config{PageSize: 1024, DiskCap: 1 << 20, SyncMode: r.Intn(3), InitMetaArea: []uint32{16, 32}[r.Intn(2)]}
+		if r.Chance(1, 2) {
+			cfg.MaxPages = 240
+		}
+		n := 90 + r.Intn(60)
+		k := 20 + r.Intn(n-70)
+		prog = []Op{
+			{K: OBegin}, {K: OAlloc, A: n, B: 1}, {K: OCommit},
+			// alternate frees and re-allocations, so that meta pages hold stale
+			// free lists naming pages that are live again
+			{K: OBegin}, {K: OFreeTop, A: k}, {K: OCommit},
+			{K: OBegin}, {K: OAlloc, A: k / 2, B: 1}, {K: OCommit},
+			{K: OBegin}, {K: OFreeTop, A: k / 3}, {K: OCommit},
+			{K: OBegin}, {K: OAlloc, A: k / 4, B: 1}, {K: OCommit},
+			{K: OBegin}, {K: OFreeTop, A: k/2 + r.Intn(8)}, {K: OCommit},
+			{K: OReopenResize, A: 1, B: r.Intn(2)},
+			{K: OBegin}, {K: OAlloc, A: 3, B: 1}, {K: OWrite, A: 7, B: 1}, {K: OCommit},
+			{K: OBegin}, {K: OFree, A: 5}, {K: OAlloc, A: 2, B: 1}, {K: OCommit},
+		}
+		resized = true
+		res.Add("histories_with_shrink_release_on_open", 1)
+	}
 	big := c.Idx%48 == 5
 	if big {
 		// transactions exceeding the writer's batch buffer (1024 messages):
@@ -311,7 +337,7 @@ func runCrashCase(c *core.Case) *core.Result {
 			}
 		}
 		subs := subsets(r, n, fullLimit, samples)
-		if big && n > 40 {
+		if n > 40 {
 			// none, all, three prefixes, four PRNG subsets
 			subs = subs[:0]
 			mk := func(f func(i int) bool) {
